@@ -46,7 +46,7 @@ func NewParser() (*Parser, error) {
 				{Name: "BindParameterEnd", Pattern: `[},]`, Action: lexer.Pop()},
 			},
 			"BindParameterRegexValue": {
-				{Name: "Regex", Pattern: `[a-zA-Z0-9*\-+._,?()\[\]{} \\\|]+`},
+				{Name: "Regex", Pattern: `[a-zA-Z0-9*\-+._~@!$&';%=,?()\[\]{} \\\|]+`},
 				{Name: "RegexEnd", Pattern: `/`, Action: lexer.Pop()},
 			},
 			"Common": {
